@@ -43,4 +43,16 @@ ModesHonoured(n, m, modes, calls) ==
     \E r \in {Reading(n, m, Len(modes))} :
         LET tab == TableOf(r, n, m, modes)
         IN \A k \in DOMAIN calls : calls[k][1] \in 1..n /\ calls[k][2] \in 1..m /\ calls[k][3] = tab[calls[k][1]][calls[k][2]]
+
+\* Result tables.  tabs[a] = the table of algorithm a as a sequence of columns <<algorithm, task, rows>> (who the column
+\* is named after) with rows[k] = <<id_trial, task, algorithm>> of the RESULT stored in row k.  One table per algorithm,
+\* one column per task in task order, one row per trial in trial order, and every cell holds the result of exactly that
+\* (algorithm, task, trial).  The same relation is demanded of what export_results wrote for each algorithm.
+TablesRight(n, m, nt, tabs) ==
+    /\ Len(tabs) = n
+    /\ \A a \in 1..n :
+          /\ Len(tabs[a]) = m
+          /\ \A t \in 1..m : /\ tabs[a][t][1] = a /\ tabs[a][t][2] = t
+                              /\ Len(tabs[a][t][3]) = nt
+                              /\ \A k \in 1..nt : tabs[a][t][3][k] = <<k, t, a>>
 =============================================================================
